@@ -255,6 +255,18 @@ func (vr *variableResolver) String() string {
 	return strings.Join(parts, ".")
 }
 
+// mapIndex is reflect's MapIndex for a key of a comparable type; such a key
+// may still hold something that cannot be hashed (a slice in an any-typed
+// field), which Go reports with a run-time panic: no map has such a key.
+func mapIndex(m, key reflect.Value) (item reflect.Value) {
+	defer func() {
+		if recover() != nil {
+			item = reflect.Value{}
+		}
+	}()
+	return m.MapIndex(key)
+}
+
 func (vr *variableResolver) resolve(ctx *ExecutionContext) (*Value, error) {
 	var current reflect.Value
 	var isSafe bool
@@ -396,7 +408,7 @@ func (vr *variableResolver) resolve(ctx *ExecutionContext) (*Value, error) {
 							return AsValue(nil), nil
 						}
 						if sv.val.Type().AssignableTo(current.Type().Key()) && sv.val.Type().Comparable() {
-							current = current.MapIndex(sv.val)
+							current = mapIndex(current, sv.val)
 						} else {
 							return AsValue(nil), nil
 						}
